@@ -356,6 +356,8 @@ class MessageAssembler:
                     'continuation'
                 )
                 self.reset()
+                # This packet is the first one of the new message
+                self.packet_count = 1
 
             self.transaction_label = transaction_label
             self.signal_identifier = SignalIdentifier(pdu[1] & 0x3F)
